@@ -59,12 +59,13 @@ def indexOfStr (x : PStr) : List PStr → Option Nat
   | y :: ys => if x == y then some 0 else (indexOfStr x ys).map (· + 1)
 
 /-- `from_arg` restricted to constants (also used by `CodeData.__iter__`) -/
-def fromConstArg (tp : Option Function) (consts : FromArgs Const) (c : Const) (o : Option Nat) : R (FromArgs Const × Nat) := do
+def fromConstArg (tp : Option Function) (consts : FromArgs Const) (c : Const) (o : Option Nat) : R (FromArgs Const × Nat) :=
   let docNone := match tp with | some f => f.doc.isNone | none => false
   let firstConst := consts.len == 0
   let isStr := match c with | .inner (.str _) => true | _ => false
-  let consts ← if docNone && firstConst && isStr && o.isNone then consts.set Const.keyEq 0 (.inner .none) else pure consts
-  consts.add Const.keyEq c o
+  if docNone && firstConst && isStr && o.isNone then
+    (consts.set Const.keyEq 0 (.inner .none)) >>= fun t => t.add Const.keyEq c o
+  else consts.add Const.keyEq c o
 
 /-- `from_arg` -/
 def fromArg (tp : Option Function) (freevars : List PStr) (st : EncSt) : Arg → R (EncSt × Int)
@@ -177,18 +178,14 @@ def addAdditional (tp : Option Function) (freevars : List PStr) : EncSt → List
     addAdditional tp freevars st as
 
 /-- the operand tables, as `blocks_to_bytes` builds them before it assembles anything -/
-def encInit (tp : Option Function) : R EncSt := do
-  let st : EncSt := {}
-  let st ← match tp with
-    | some f => do
-      let vn ← seedVarnames st.varnames f.args.varnameOrder 0
-      pure { st with varnames := vn }
-    | none => pure st
+def encInit (tp : Option Function) : R EncSt :=
   match tp with
-    | some f => match f.doc with
-      | some d => do let t ← st.consts.set Const.keyEq 0 (.inner (.str d)); pure { st with consts := t }
-      | none => pure st
-    | none => pure st
+  | none => pure {}
+  | some f =>
+    (seedVarnames {} f.args.varnameOrder 0) >>= fun vn =>
+      match f.doc with
+      | some d => (({} : FromArgs Const).set Const.keyEq 0 (.inner (.str d))) >>= fun t => pure { varnames := vn, consts := t }
+      | none => pure { varnames := vn }
 
 def collectCells : FromArgs PStr → List Arg → R (FromArgs PStr)
   | t, [] => pure t
